@@ -53,6 +53,22 @@ CLAIMED = {
             "Eleven theorems (Props/C07.v). partial: text decoding is a modelled codec (ASCII, Latin-1, cp1252 subset, UTF-8, UTF-16/32 LE/BE without surrogates) tied to Python's codecs by correspondence; bytewise terminator search in multi-byte charsets mirrors the code (F15 noted in DESIGN).",
             "Trusted: Coq kernel+VM; Flocq 4.1 and the standard-library real axioms (length arithmetic); CPython codecs. Genuine defect F6 found by this check and repaired by a fix: commit.",
             "DESIGN.md section 4 C07, 8.4"),
+    "C05": ("Coq proof (entry lists = flattened parameter lists with nested containers expanded in place; candidates = filter of inheritors by criteria; unique child / abstract dead end / concrete stop / ambiguity; every outcome lies on a unique-child path whose flattened entries fill the packet in order) + kernel-evaluated correspondence through packet_generator on random container trees",
+            "Eight theorems (Props/C05.v) for every definition, packet and fuel; field decoding is the C04/C07/C08 model.",
+            "Trusted: Coq kernel+VM; Flocq (+ real axioms) through the field decoders; acyclicity of loaded definitions (C17) for the fuel bound. Genuine defect F13 found by this check and repaired by a fix: commit.",
+            "DESIGN.md section 4 C05"),
+    "C11": ("Coq proof (generator = in-order flat map of per-packet results; prefix unaffected by a later raising packet; error objects in place; schedule independence of any number of generator states) + kernel-evaluated correspondence under all option combinations + interleaved real generators and definition snapshots on the implementation",
+            "Four theorems (Props/C11.v). partial: hidden shared mutable state in Python objects cannot be exhibited by a functional model; it is covered only by the interleaving and snapshot runs and by the correspondence.",
+            "Trusted: Coq kernel+VM; the per-packet model (C05/C04/C07/C08).",
+            "DESIGN.md section 4 C11"),
+    "C14": ("Coq proof (clean delivery iff cursor = 8*len; mismatch flagged or withheld; every read/field/walk advances the cursor by a non-negative width and leaves data untouched; an over-read persists; negative widths rejected) + kernel-evaluated property predicate on the implementation's own items (flag iff mismatch, clean only if the proved model consumes exactly all bits) + correspondence",
+            "Eight theorems (Props/C14.v) for all definitions and packets.",
+            "Trusted: Coq kernel+VM; warnings are attributed to items by the numbers in their text. Genuine defect F8 found by this check (a packet with a negative-length field delivered clean) and repaired by a fix: commit.",
+            "DESIGN.md section 4 C14"),
+    "C01": ("Coq proof by composition (C02 framing exactness + C11 flat map + C05 path/flattening, fields per C04/C07/C08) + kernel-evaluated end-to-end correspondence: generated documents rendered to XML, loaded with from_xtce, streams through the framer, every item compared on names, order, value, raw value and class",
+            "Theorems C01_stream_refines, C01_packet_refines for every definition of the modelled subset and every stream of well-formed packets. The subset and its exclusions are listed in DESIGN.md.",
+            "Trusted: Coq kernel+VM; Flocq (+ real axioms); the XML loader is tied to the document model under C09/C16/C17; correspondence sampling of documents.",
+            "DESIGN.md section 4 C01"),
 }
 PENDING_REASON = "check not built yet in this round; design in DESIGN.md section 4 (no technique switch planned)"
 
